@@ -65,7 +65,7 @@ impl Pools {
             idents: vec![
                 "alpha", "beta", "camelCase", "dry_run", "r#else", "file_name", "gamma", "i",
                 "jobs", "k", "level_of_detail", "mode", "name", "output", "p", "quiet", "r#type",
-                "user", "w", "x", "yes", "zone",
+                "user", "w", "x", "yes", "zone", "größe", "ö", "naïveMode",
             ],
             customs: vec![
                 ("custom-a", 'A'),
@@ -847,16 +847,24 @@ fn gen_top_doc(u: &mut Un, tag: &str) -> TopDoc {
             footer: None,
         },
         _ => TopDoc {
-            lines: vec![
-                format!("Description of {}", tag),
-                "continues here".to_owned(),
-                String::new(),
-                String::new(),
-                format!("Header of {}", tag),
-                String::new(),
-                String::new(),
-                format!("Footer of {}", tag),
-            ],
+            lines: {
+                let mut l = vec![
+                    format!("Description of {}", tag),
+                    "continues here".to_owned(),
+                    String::new(),
+                    String::new(),
+                    format!("Header of {}", tag),
+                    String::new(),
+                    String::new(),
+                ];
+                // an empty block before the footer (four blank lines) changes nothing
+                if u.bool() {
+                    l.push(String::new());
+                    l.push(String::new());
+                }
+                l.push(format!("Footer of {}", tag));
+                l
+            },
             descr: Some(format!("Description of {}\ncontinues here", tag)),
             header: Some(format!("Header of {}", tag)),
             footer: Some(format!("Footer of {}", tag)),
@@ -1158,7 +1166,7 @@ pub fn gen_enum(u: &mut Un, ix: usize) -> TypeIR {
     let name = format!("Choice{}", ix);
     let commands = u.chance(110);
     let n = 2 + u.below(3);
-    let vnames = ["First", "SecondOne", "Third", "FourthVariant", "Fifth"];
+    let vnames = ["First", "SecondOne", "Third", "LöschenAlles", "Fifth"];
     let top = gen_top_doc(u, &name);
     let mut src = String::new();
     src.push_str(&doc_lines(&top.lines, ""));
